@@ -70,6 +70,13 @@ func seedEntries(f *testing.F) {
 			if extra, err := rfc6962.EncodePrecertChainEntry(der, [][]byte{issuer}); err == nil {
 				f.Add(leaf, extra, int64(1)<<40)
 			}
+			// a certificate only the relaxed ASN.1 rules accept, alone and followed by a stray byte
+			lax := laxify(der, false, 1+i%3)
+			for _, c := range [][]byte{lax, append(clone(lax), 0)} {
+				if l2, err := rfc6962.EncodeLeaf(rfc6962.Leaf{Timestamp: 2, Entry: rfc6962.Entry{Type: rfc6962.X509Entry, Cert: c}}); err == nil {
+					f.Add(l2, []byte{0, 0, 0}, int64(i))
+				}
+			}
 		}()
 	}
 	f.Add([]byte{}, []byte{}, int64(0))
